@@ -189,6 +189,7 @@ fn add<S: Subject>(jobs: &mut Vec<Box<dyn JobT>>, variant: &str, disc: Disc, w: 
     let ctx = Ctx::new(disc).newest();
     let label = format!("{}/{:?}/{variant}", S::name(), disc);
     jobs.push(job(label, q, t, { let pc = pc.clone(); move || plan_strategy(&pc) }, move |p: &Plan, st: &mut Stats| check_equal_state::<S>(p, &ctx, st, eq_ex)).decoder({ let pc = pc.clone(); move |d: &[u8]| decode_plan(&pc, d) })
+            .encoder({ let pc = pc.clone(); move |t: &Plan| encode_plan(&pc, t) })
             .floor("nontrivial", floor).boxed());
 }
 
